@@ -20,14 +20,21 @@ BUDGET_S = {"quick": 420, "thorough": 2400}
 RULE = ("Seeds of 16..64 bytes (every length in the quick tier's sweep at least once in the thorough tier); "
         "indexes 0, 1, 2^31-1, 2^31, 2^32-1 plus random, and -1 / 2^32 on the refusal side; paths up to depth 8 in "
         "' / h / H notation with m / M; all four networks and all 20 SLIP-132 prefixes; malformed xkeys by "
-        "truncation, byte flips, unknown versions, bad key prefix bytes; path text fuzz (signs, underscores, "
+        "truncation, byte flips, unknown versions, bad key prefix bytes; extended-key STRINGS (xprv()/xpub()/parse(), "
+        "modelled in Model/HdStr.v over the Base58Check model of C09) for all 20 prefixes and malformed by one "
+        "character changed / inserted / dropped / appended, transposition, a leading '1', altered check bytes, "
+        "altered payload under the old check bytes, well-checksummed payloads of 0, 77, 79, 80 bytes; path text fuzz (signs, underscores, "
         "whitespace, empty components, '//') through the real traverse() loops with a recording stub key.")
 TRUSTED = ["hashlib/hmac (HMAC-SHA512, SHA256, RIPEMD160): universally quantified functions in the theorems",
-           "Base58Check string layer of xprv/xpub: exercised through the implementation's own "
-           "encode_base58_checksum/raw_decode_base58 in every codec case and checked against an independent "
-           "Base58Check in the harness (predicate vs_reference); modelled and proved in C09, not here",
            "group laws of secp256k1 (record scalar_laws of Proofs/GroupHyp.v): explicit hypothesis of the "
            "derivation theorems, discharged on the toy curve"]
+# One secp256k1 scalar multiplication does not finish under vm_compute inside Coq (measured: > 5 min), so the
+# extraction self-check is restricted to the entry points without one: the path text functions and the
+# public-key side of the codec and of the string layer (Base58Check and the 78-byte parser inside Coq).
+VM_SKIP = {"from_seed", "child_priv", "child_pub", "pub_of", "traverse_priv", "traverse_pub", "xprv_raw",
+           "parse_priv", "raw_parse_priv", "blind_xpub", "xprv_str", "parse_priv_str",
+           "spec_ckd_priv", "spec_ckd_pub", "spec_master"}
+
 ASSUMPTIONS = ["path text is ASCII (str.lower/strip/int of non-ASCII letters, spaces and digits are not modelled)",
                "int() of a component has fewer than 4300 digits (CPython's int-string limit is not modelled)",
                "BIP32's 'IL >= n or child key 0/infinity' event (probability about 2^-127 per derivation) does "
@@ -639,6 +646,27 @@ def p_bad_xkey(raw, is_priv):
     return f"malformed extended key accepted: {raw.hex()} -> {k!r}"
 
 
+def p_bad_xkey_str(good, bads, is_priv):
+    """STRING level: a valid extended-key string parses and prints back to itself character for character;
+    every other string of the list (one edit away from it, wrong check bytes, wrong payload length) is refused"""
+    good = _txt(good)
+    f = HDPrivateKey.parse if is_priv else HDPublicKey.parse
+    k = f(good)
+    back = k.xprv() if is_priv else k.xpub()
+    if back != good:
+        return f"{good} parses and prints back as {back}"
+    for bad in bads:
+        bad = _txt(bad)
+        if bad == good:
+            continue
+        try:
+            k2 = f(bad)
+        except Exception:
+            continue
+        return f"malformed extended-key string accepted: {bad!r} -> {k2!r}"
+    return None
+
+
 def p_blind(seed, net, vi, idx1, idx2, st1, st2):
     """blind_xpub(xpub at p1, p1, p2) is the key at the combined path from the root"""
     k = _root(seed, net, vi)
@@ -886,6 +914,7 @@ PROPS = {"pub_reuse": p_pub_reuse, "priv_reuse": p_priv_reuse, "blind_history": 
          "commute": p_commute, "refuse": p_refuse, "compose": p_compose, "case_notation": p_case_notation,
          "pub_path_same_as_priv": p_pub_path_same_as_priv, "vs_reference": p_vs_reference,
          "xkey_roundtrip": p_xkey_roundtrip, "raw_roundtrip": p_raw_roundtrip, "bad_xkey": p_bad_xkey,
+         "bad_xkey_str": p_bad_xkey_str,
          "blind": p_blind, "vectors": p_vectors, "versions_table": p_versions_table}
 
 # ------------------------------------------------------------------ generators
@@ -1106,6 +1135,36 @@ def generate(ctx):
             yield ("corr", fn, [s_[:pos] + r.choice(_B58 + "0OIl ") + s_[pos + 1:]])      # substitution
             yield ("corr", fn, [s_[:pos]])                                               # truncation
             yield ("corr", fn, [s_[:pos] + s_[pos + 1:]])                                # deletion
+        # more malformed STRINGS, each run through the model (corr) and required to be refused (prop):
+        # extension / insertion, transposition, a leading '1' (= a zero byte in front), wrong check bytes,
+        # payload altered under the original check bytes, correctly checksummed payloads of the wrong length
+        for s_, raw_, fn, isp in ((sp_, rawp, "parse_priv_str", 1), (sq_, rawq, "parse_pub_str", 0)):
+            pos = r.randrange(len(s_) + 1)
+            tp = r.randrange(len(s_) - 1)
+            chk = helper.hash256(raw_)[:4]
+            cpos, ppos = r.randrange(4), r.randrange(78)
+            badchk = chk[:cpos] + bytes([chk[cpos] ^ (1 << r.randrange(8))]) + chk[cpos + 1:]
+            badpay = raw_[:ppos] + bytes([raw_[ppos] ^ (1 << r.randrange(8))]) + raw_[ppos + 1:]
+            sub = r.randrange(len(s_))
+            bads = [s_[:pos] + r.choice(_B58) + s_[pos:],                       # one character inserted
+                    s_ + r.choice(_B58),                                        # extended at the end
+                    "1" + s_,                                                   # leading '1'
+                    s_[:tp] + s_[tp + 1] + s_[tp] + s_[tp + 2:],                # transposition
+                    s_[:sub] + r.choice(_B58) + s_[sub + 1:],                   # one character changed (alphabet)
+                    s_[:-1],                                                    # last character dropped
+                    s_[1:],                                                     # first character dropped
+                    helper.encode_base58(raw_ + badchk),                        # check bytes altered
+                    helper.encode_base58(badpay + chk),                         # payload altered, check bytes kept
+                    helper.encode_base58_checksum(raw_[:77]),                   # 77-byte payload, good checksum
+                    helper.encode_base58_checksum(raw_ + bytes([r.randrange(256)])),   # 79 bytes
+                    helper.encode_base58_checksum(b"\x00" + raw_[:77]),         # 78 bytes behind a zero byte
+                    helper.encode_base58_checksum(b"\x00\x00" + raw_),          # two leading zero bytes, 80 bytes
+                    helper.encode_base58_checksum(b""),                         # empty payload
+                    "", "1", "1111"]
+            for b_ in bads:
+                yield ("corr", fn, [b_])
+            yield ("prop", "bad_xkey_str", [s_, bads, isp])
+            ctx.label("xkey-string/malformed-classes", len(bads))
         # wrong class of key
         yield ("corr", "parse_priv", [rawq])
         yield ("corr", "parse_pub", [rawp])
